@@ -10,12 +10,16 @@ import bookrun
 bookrun.setup()
 req = json.load(sys.stdin)
 m = bookrun.ExcelModel().from_dict(req['dict'])
+if req.get('circular'):
+    m.finish(complete=False, circular=True)
 sol = m.calculate()
 out = {}
 for k in req['keys']:
     v = sol.get(k)
     try:
-        out[k] = [[bookrun.wire_impl(x) for x in row] for row in np.asarray(v.value, object).tolist()]
+        a = np.asarray(getattr(v, 'value', v), object)
+        a = a.reshape(1, 1) if a.ndim == 0 else a
+        out[k] = [[bookrun.wire_impl(x) for x in row] for row in a.tolist()]
     except Exception as ex:
         out[k] = 'missing:' + type(ex).__name__
 json.dump(out, sys.stdout)
